@@ -10,18 +10,8 @@ def _(c):
     c.trusted('C18.1/C05: returns a new matcher graph or raises RuntimeError; touches nothing that exists')
     c.raises('RuntimeError', when=None, exact=False)
     c.ensures('fresh(result)')
-    c.ensures('(not isinstance(result, MatcherList)) or (fresh(result.positive) and fresh(result.negative))', 'lists_of_the_result_are_new')
+    c.ensures('(not isinstance(result, MatcherList)) or (fresh(result.positive) and fresh(result.negative) and result.positive is not result.negative)', 'lists_of_the_result_are_new')
     c.modifies('new')
-    c.epoch_preserving()
-
-
-@contract('core.matcher.join')
-def _(c):
-    c.trusted('C12.1 (matcher semantics layer): result is `new` or a new list; only new\'s own lists are written')
-    c.types(new=M_, old=M_).returns(M_)
-    c.ensures('result is new or fresh(result)')
-    c.modifies('new', 'when(isinstance(new, MatcherList), list(new.positive))', 'when(isinstance(new, MatcherList), list(new.negative))',
-               'when(isinstance(new, MatcherList), new.positive)')
     c.epoch_preserving()
 
 
@@ -44,6 +34,14 @@ def _gen_cmd(texts):
     return g
 
 
+def _gen_paj(rnd):
+    c = gen.controller_with_history(rnd)
+    cur = rnd.choice([None, c.display_matcher, c.display_matcher])
+    for _ in range(rnd.randint(0, 3)):
+        cur = c.parse_and_join(rnd.choice(_MT), cur)
+    return (c, rnd.choice(_MT), cur)
+
+
 _MT = gen.MATCHERS + ['', '((', 'a.b.c', 'wl_surface(', '"', '[', 'x@y@z', '!', '*']
 
 
@@ -55,6 +53,14 @@ def _(c):
     c.ensures('len(out_text()) == old(len(out_text())) or len(out_text()) == old(len(out_text())) + 1', 'at_most_one_error_line')
     c.ensures('len(out_text()) == old(len(out_text())) or (result is old if old is not None else True)', 'parse_error_keeps_old_matcher')
     c.ensures('len(shown()) == old(len(shown()))', 'no_message_line')
+    # bounded stand-in (native only): the whole command path incl. simplify() selects what C12 says, on the recorded messages
+    c.ensures('old(expected_selection(new_unparsed, old, tuple(self.all_messages))) is None or '
+              'verdicts(result, old(tuple(self.all_messages))) == old(expected_selection(new_unparsed, old, tuple(self.all_messages)))',
+              'selection_is_the_accumulated_one', native_only=True)
+    c.ensures('old(expected_selection(new_unparsed, old, tuple(self.all_messages))) is not None or old is None or '
+              '(result is old and verdicts(result, old(tuple(self.all_messages))) == old(verdicts(old, tuple(self.all_messages))))',
+              'a_rejected_matcher_leaves_the_current_one_as_it_was', native_only=True)
+    c.native_gen(_gen_paj)
     c.modifies('trace', 'new', 'field(core.matcher.WrapMatcher.wrapped)', 'field(core.matcher.PairMatcher.a)', 'field(core.matcher.PairMatcher.b)',
                'field(core.matcher.MatcherList.positive)', 'field(core.matcher.MatcherList.negative)',
                'field(core.matcher.ArgsMatcherList.positive)', 'field(core.matcher.ArgsMatcherList.negative)',
